@@ -54,7 +54,7 @@ fn fmt_items(b: &Bag) -> String {
     }
 }
 
-fn fmt_bag(r: Result<Arc<Bag>, BagError>) -> String {
+pub fn fmt_bag(r: Result<Arc<Bag>, BagError>) -> String {
     match r {
         Ok(b) => format!("ok:{}:{}", b.revision, fmt_items(&b)),
         Err(e) => format!("err:{}", e.kind()),
@@ -186,10 +186,13 @@ impl<const IV: u64> Sys<IV> {
         let wstores = (0..N_WINST).map(|_| WalStore::create(&storage, WNS).expect("wal store")).collect();
         let kv = storage.open(NS).expect("kv");
         let wkv = storage.open(WNS).expect("kv");
+        krill::verif::kvfault::disarm();
         Sys { storage, scratch, stores, wstores, kv, wkv, fault: false, scratch_seed: seed.wrapping_mul(7919) }
     }
 
-    /// (Re-)establishes the write fault: opening a disk store re-creates `.tmp`.
+    /// (Re-)establishes the write fault.  Disk: without the `.tmp` directory every value write
+    /// fails with an I/O error (opening a store re-creates it, hence "re-"); memory: the
+    /// cfg-gated fault point of the back-end (`krill::verif::kvfault`) fails every mutation.
     fn apply_fault(&self) {
         if let Some(s) = &self.scratch {
             let tmp = s.path().join(".tmp");
@@ -198,7 +201,27 @@ impl<const IV: u64> Sys<IV> {
             } else {
                 let _ = std::fs::create_dir_all(&tmp);
             }
+        } else if self.fault {
+            krill::verif::kvfault::arm(0, krill::verif::kvfault::Mode::Crash);
+        } else {
+            krill::verif::kvfault::disarm();
         }
+    }
+
+    /// Runs `f` with the write fault lifted (deleting a scope and the harness's own copies
+    /// are not what the fault is about).
+    fn lifted<T>(&mut self, f: impl FnOnce(&mut Self) -> T) -> T {
+        let was = self.fault;
+        if was {
+            self.fault = false;
+            self.apply_fault();
+        }
+        let r = f(self);
+        if was {
+            self.fault = true;
+            self.apply_fault();
+        }
+        r
     }
 
     fn fresh(&self, h: &str) -> String {
@@ -233,10 +256,8 @@ impl<const IV: u64> Sys<IV> {
         let w: Vec<&str> = op.split_whitespace().collect();
         let inst = |s: &str| s.parse::<usize>().expect("instance");
         match w.as_slice() {
+            ["conclog", _] => "ev=-".into(),
             ["fault", onoff] => {
-                if self.scratch.is_none() {
-                    return "ret=ignored".into();
-                }
                 self.fault = *onoff == "on";
                 self.apply_fault();
                 "ret=ok".into()
@@ -269,7 +290,8 @@ impl<const IV: u64> Sys<IV> {
                 "ret=ok".into()
             }
             ["drop", i, h] => {
-                let r = self.stores[inst(i)].drop_aggregate(&handle(h));
+                let i = inst(i);
+                let r = self.lifted(|s| s.stores[i].drop_aggregate(&handle(h)));
                 format!("ret={} {}", if r.is_ok() { "ok" } else { "err" }, view_agg(&self.kv, h))
             }
             ["hist", i, h, offset, rows, after] => {
@@ -311,7 +333,7 @@ impl<const IV: u64> Sys<IV> {
                     s.push_str(&format!("live{}={} ", i, fmt_reg(st.get_latest(&hd))));
                 }
                 let fresh = self.fresh(h);
-                let scratch = self.from_scratch(h);
+                let scratch = self.lifted(|s| s.from_scratch(h));
                 format!("{s}fresh={fresh} scratch={scratch} {}", view_agg(&self.kv, h))
             }
             // ---- WAL store
@@ -340,7 +362,8 @@ impl<const IV: u64> Sys<IV> {
                 "ret=ok".into()
             }
             ["wremove", i, h] => {
-                let r = self.wstores[inst(i)].remove(&handle(h));
+                let i = inst(i);
+                let r = self.lifted(|s| s.wstores[i].remove(&handle(h)));
                 format!("ret={} {}", if r.is_ok() { "ok" } else { "err" }, view_wal(&self.wkv, h))
             }
             ["wcheck", h] => {
@@ -500,7 +523,7 @@ fn gen_ops(rng: &mut Rng, m: &Mirror, disk: bool, fault: bool, step: usize) -> V
     }
 }
 
-fn gen_op(rng: &mut Rng, m: &Mirror, disk: bool, fault: bool, step: usize) -> String {
+fn gen_op(rng: &mut Rng, m: &Mirror, _disk: bool, fault: bool, step: usize) -> String {
     let inst = |rng: &mut Rng| match rng.below(10) { 0..=5 => 0, 6..=8 => 1, _ => 2 };
     // mostly work on entities that exist
     let pick_h = |rng: &mut Rng, all: &[&'static str], ex: &std::collections::HashSet<String>| -> &'static str {
@@ -546,7 +569,7 @@ fn gen_op(rng: &mut Rng, m: &Mirror, disk: bool, fault: bool, step: usize) -> St
         71..=72 => format!("has {} {}", inst(rng), h),
         73..=78 => format!("check {h}"),
         79..=81 => {
-            if disk && !fault { "fault on".into() } else { format!("get {} {}", inst(rng), h) }
+            if !fault { "fault on".into() } else { format!("get {} {}", inst(rng), h) }
         }
         // ---- WAL
         82..=83 => {
@@ -628,7 +651,7 @@ fn gen_case<const IV: u64>(out: &mut dyn Write, disk: bool, seed: u64, rng: &mut
 
 fn main() {
     let args = Args::parse();
-    if args.positional.iter().any(|p| p == "--conc") {
+    if args.ops.is_none() && args.positional.iter().any(|p| p == "--conc") {
         conc::main(&args);
         return;
     }
